@@ -444,6 +444,68 @@ EvalPreds(prog, pm, todo, db, dev) ==
                   ELSE EvalPreds(prog, pm, todo \ ms,
                                  SimIter(pm, ms, [q \in ms |-> <<>>], db, c.depth + 1, dev) @@ db, dev)
 
+(* ---- functors (property C04) --------------------------------------------- *)
+(* `N := F(A: B, ...)`: N is F with every use of A, direct or through the    *)
+(* predicates F is built from, replaced by B.  Stated as a program           *)
+(* transformation: the predicates reachable from F that (transitively) read  *)
+(* a key are cloned under fresh names, keys are replaced by values inside    *)
+(* the clones, and N names the clone of F.  Everything else is untouched.    *)
+(* prog.makes: Seq([name, functor, args: Seq([k, v])]), in dependency order. *)
+RECURSIVE RenE(_, _), RenC(_, _)
+RenArgs(args, m) == [i \in 1..Len(args) |-> [args[i] EXCEPT !.e = RenE(@, m)]]
+RenBody(body, m) == [i \in 1..Len(body) |-> RenC(body[i], m)]
+MapName(p, m) == IF p \in DOMAIN m THEN m[p] ELSE p
+RenE(e, m) ==
+  CASE e.k = "var"  -> e
+    [] e.k = "lit"  -> e
+    [] e.k = "op"   -> [e EXCEPT !.args = [i \in 1..Len(e.args) |-> RenE(e.args[i], m)]]
+    [] e.k = "list" -> [e EXCEPT !.items = [i \in 1..Len(e.items) |-> RenE(e.items[i], m)]]
+    [] e.k = "rec"  -> [e EXCEPT !.fields = RenArgs(e.fields, m)]
+    [] e.k = "sub"  -> [e EXCEPT !.e = RenE(@, m)]
+    [] e.k = "if"   -> [e EXCEPT !.c = RenE(@, m), !.t = RenE(@, m), !.f = RenE(@, m)]
+    [] e.k = "pcall" -> [e EXCEPT !.p = MapName(@, m), !.args = RenArgs(@, m)]
+    [] e.k = "agg"  -> [e EXCEPT !.e = RenE(@, m), !.body = RenBody(@, m)]
+RenC(c, m) ==
+  CASE c.k = "atom"  -> [c EXCEPT !.p = MapName(@, m), !.args = RenArgs(@, m)]
+    [] c.k = "cmp"   -> [c EXCEPT !.e = RenE(@, m)]
+    [] c.k = "unify" -> [c EXCEPT !.l = RenE(@, m), !.r = RenE(@, m)]
+    [] c.k = "inc"   -> [c EXCEPT !.l = RenE(@, m), !.r = RenE(@, m)]
+    [] c.k = "neg"   -> [c EXCEPT !.body = RenBody(@, m)]
+    [] c.k = "or"    -> [c EXCEPT !.alts = [i \in 1..Len(c.alts) |-> RenBody(c.alts[i], m)]]
+RenRule(r, m) == [r EXCEPT !.head = RenArgs(@, m), !.body = RenBody(@, m)]
+
+(* all predicates reachable from p (reflexive), through any predicate *)
+RECURSIVE ReachAll(_, _, _)
+ReachAll(pm, seen, frontier) ==
+  IF frontier = {} THEN seen
+  ELSE LET nxt == (UNION {Mentions(pm[q]) \cap DOMAIN pm : q \in frontier}) \ seen
+       IN ReachAll(pm, seen \cup nxt, nxt)
+
+CloneName(q, n, f) == IF q = f THEN n ELSE q \o "_of_" \o n
+
+ApplyMake(preds, mk) ==
+  LET pm == [n \in {preds[i].name : i \in 1..Len(preds)} |->
+               preds[CHOOSE i \in 1..Len(preds) : preds[i].name = n]]
+      keys == {mk.args[i].k : i \in 1..Len(mk.args)}
+      below == ReachAll(pm, {mk.functor}, {mk.functor})
+      affected == {q \in below \ keys :
+                     ReachAll(pm, {q}, {q}) \cap keys # {}} \cup {mk.functor}
+      m == [q \in affected \cup keys |->
+              IF q \in keys
+              THEN mk.args[CHOOSE i \in 1..Len(mk.args) : mk.args[i].k = q].v
+              ELSE CloneName(q, mk.name, mk.functor)]
+      order == SelectSeq([i \in 1..Len(preds) |-> preds[i].name], LAMBDA q : q \in affected)
+      clones == [i \in 1..Len(order) |->
+                   [pm[order[i]] EXCEPT !.name = m[order[i]],
+                                        !.rules = [j \in 1..Len(@) |-> RenRule(@[j], m)]]]
+  IN preds \o clones
+
+RECURSIVE ApplyMakes(_, _)
+ApplyMakes(preds, makes) ==
+  IF makes = <<>> THEN preds ELSE ApplyMakes(ApplyMake(preds, makes[1]), Tail(makes))
+
+ExpandMakes(prog) == [prog EXCEPT !.preds = ApplyMakes(prog.preds, prog.makes)]
+
 (* ---- strategy-independent reading of recursion (property C03) ----------- *)
 (* The exact count of applications is prescribed for self recursion, for    *)
 (* iterative execution (depth > 20 or iterative: true) and for groups that  *)
@@ -488,8 +550,9 @@ DepsT(pm, seen, frontier) ==
   ELSE LET nxt == (UNION {NeedsOf(pm, q) : q \in frontier}) \ seen
        IN DepsT(pm, seen \cup nxt, nxt)
 
-DenDev(prog, dev) ==
-  LET pm == PredMap(prog)
+DenDev(prog0, dev) ==
+  LET prog == ExpandMakes(prog0)
+      pm == PredMap(prog)
       mat == {p \in DOMAIN pm : ~pm[p].inline}
   IN EvalPreds(prog, pm, mat, EmptyDb, dev)
 
